@@ -19,15 +19,18 @@ theorem ff_negate : Gen.Sem.ffNegate = Sem.ffNegate := by
   | rfl
   | (funext P a; simp only [Gen.Sem.ffNegate, Sem.ffNegate, ff_new]; congr 1; grind)
   | (funext P a; simp only [Gen.Sem.ffNegate, Sem.ffNegate, ff_new, Sem.ffNew]; grind)
+  | (funext P a; simp only [Gen.Sem.ffNegate, Sem.ffNegate, ff_new, Sem.ffNew, Gen.Sem.ffNew, Nat.mod_mod]; first | done | rfl | grind | omega)
 theorem ff_add : Gen.Sem.ffAdd = Sem.ffAdd := by
   first
   | rfl
   | (funext P a b; simp only [Gen.Sem.ffAdd, Sem.ffAdd, ff_new]; congr 1; grind)
   | (funext P a b; simp only [Gen.Sem.ffAdd, Sem.ffAdd, ff_new, Sem.ffNew]; grind)
+  | (funext P a b; simp only [Gen.Sem.ffAdd, Sem.ffAdd, ff_new, Sem.ffNew, Gen.Sem.ffNew, Nat.mod_mod]; first | done | rfl | grind | omega)
 theorem ff_sub : Gen.Sem.ffSub = Sem.ffSub := by
   first
   | rfl
   | (funext P a b; simp only [Gen.Sem.ffSub, Sem.ffSub, ff_new]; congr 1; grind)
   | (funext P a b; simp only [Gen.Sem.ffSub, Sem.ffSub, ff_new, Sem.ffNew]; grind)
+  | (funext P a b; simp only [Gen.Sem.ffSub, Sem.ffSub, ff_new, Sem.ffNew, Gen.Sem.ffNew, Nat.mod_mod]; first | done | rfl | grind | omega)
 
 end TieFF
